@@ -178,6 +178,42 @@ let codegen_main () =
      | _ -> failwith ("bad line: " ^ line))
   done with End_of_file -> ())
 
+(* ---------------- calling convention (C06) ---------------- *)
+let rec nat_of_int i = if i <= 0 then O else S (nat_of_int (i - 1))
+let rec z_of_int i = if i = 0 then Z0 else if i > 0 then Zpos (pos_of_int i) else Zneg (pos_of_int (-i))
+(* aggregate syntax: s<flt 0|1> | a <esize> <n> <ty> | g <nmembers> (<offset> <ty>)* *)
+let rec parse_aty toks = match toks with
+  | "s" :: f :: r -> (ASc (f = "1"), r)
+  | "a" :: esz :: n :: r -> let (e, r) = parse_aty r in (AArr (e, z_of_int (int_of_string esz), nat_of_int (int_of_string n)), r)
+  | "g" :: n :: r ->
+    let rec mems k r acc = if k = 0 then (List.rev acc, r) else
+      (match r with o :: r -> let (m, r) = parse_aty r in mems (k - 1) r ((z_of_int (int_of_string o), m) :: acc) | _ -> failwith "bad agg") in
+    let (ms, r) = mems (int_of_string n) r [] in (AAgg ms, r)
+  | _ -> failwith "bad aty"
+(* stdin: "regs <size> <aty>"  -> "<ngp> <nfp>"
+          "place (I|F|L|S <ngp> <nfp> <words>|B <words>)*" -> one location per argument: R<gp>,<fp> or S<word>;
+            three lines: psabi, caller (pop loop), callee *)
+let abi_main () =
+  let show l = String.concat " " (List.map (function InRegs (g, f) -> Printf.sprintf "R%d,%d" (int_of_nat g) (int_of_nat f)
+                                                    | OnStack w -> Printf.sprintf "S%d" (int_of_nat w)) l) in
+  (try while true do
+    let line = String.trim (input_line stdin) in
+    (match List.filter (fun s -> s <> "") (String.split_on_char ' ' line) with
+     | "regs" :: size :: r ->
+       let (ty, _) = parse_aty r in
+       let (g, f) = count_struct_regs ty (z_of_int (int_of_string size)) in
+       Printf.printf "%d %d\n" (int_of_nat g) (int_of_nat f)
+     | "place" :: r ->
+       let rec args = function
+         | "I" :: r -> AInt :: args r | "F" :: r -> AFlt :: args r | "L" :: r -> ALdbl :: args r
+         | "S" :: g :: f :: w :: r -> ASmall (nat_of_int (int_of_string g), nat_of_int (int_of_string f), nat_of_int (int_of_string w)) :: args r
+         | "B" :: w :: r -> ABig (nat_of_int (int_of_string w)) :: args r
+         | [] -> [] | _ -> failwith "bad arg list" in
+       let a = args r in
+       Printf.printf "%s | %s | %s\n" (show (psabi_place O O O a)) (show (caller_place gP_MAX fP_MAX O O O a)) (show (callee_place gP_MAX fP_MAX O O O a))
+     | _ -> failwith ("bad line: " ^ line)); flush stdout
+  done with End_of_file -> ())
+
 (* ---------------- layout / declspec ---------------- *)
 (* stdin: "S|U <packed 0|1> <align0> <size align bf named>*"  (bf = -1 for an ordinary member)
    stdout: "<size> <align> <off:bit>*" *)
@@ -226,6 +262,7 @@ let () =
   match Array.to_list Sys.argv with
   | [_; "cexpr"] -> cexpr_main ()
   | [_; "codegen"] -> codegen_main ()
+  | [_; "abi"] -> abi_main ()
   | [_; "layout"] -> layout_main ()
   | [_; "declspec-spec"] -> declspec_main ()
   | [_; "declspec-run"] -> declspec_run_main ()
